@@ -58,3 +58,6 @@ claim("C19", "property-based testing (Hypothesis); structural oracle with statis
 claim("C20", "property-based testing (Hypothesis) against scipy adaptive quadrature",
       "Truncated measures (scalar / per-component, one- and two-sided, near-mode and far-tail limits within 12 sigma): evaluation inside/outside/at the limits, integrals of 1, x, x^2, x^k (k 0..6) against quad of x^k u(x), additivity over adjacent intervals, and both normalised variants (get_density(), direct construction on normalised and un-normalised measures): evaluation, unit mass, mean, variance.",
       _NOTE, "DESIGN.md §2 C20")
+claim("C18", "property-based testing over generated programs (Hypothesis): eager vs jit vs vmap, reverse-mode gradient vs central differences, pytree / dict round trips",
+      "Boundary crossings (flatten/unflatten, jit argument, jit result, scan carry, to_dict/from_dict) for the 12 factor / measure / density / linear-conditional classes, cold and warm; generated pipelines (start kind -> 0-3 products/slices/normalisations -> each of 15 terminals incl. all 12 integrals; 13 conditional / approximate-conditional / Kalman-scan / truncated programs) run eagerly, under jit, under vmap over the data axis, and differentiated w.r.t. every continuous parameter against central differences along 3 drawn directions.",
+      _NOTE, "DESIGN.md §2 C18")
